@@ -103,12 +103,11 @@ func Counting(p *core.Prog, r *core.Report) {
 				got := strings.Join(msgs, ";")
 				ok := false
 				switch {
-				case k == 0:
-					ok = got == "mustValidateOnlyOneSchemaMsg(Found none valid)"
 				case k == 1:
 					ok = got == ""
 				default:
-					ok = len(msgs) == 1 && strings.HasPrefix(msgs[0], "mustValidateOnlyOneSchemaMsg(") && !strings.Contains(got, "none valid")
+					// (the wording of the message is not checked: only that exactly one "only one schema" error is produced)
+					ok = len(msgs) == 1 && strings.HasPrefix(msgs[0], "mustValidateOnlyOneSchemaMsg(")
 				}
 				if !ok {
 					bad = append(bad, fmt.Sprintf("%d valid alternative(s) -> [%s]", k, got))
@@ -155,15 +154,14 @@ func Counting(p *core.Prog, r *core.Report) {
 						}
 						msgs := messagesReached(p, na, f, exit, preset)
 						got := strings.Join(msgs, ";")
-						want := "mustValidateAllSchemasMsg()"
-						if k == 0 {
-							want = "mustValidateAllSchemasMsg(. None validated)"
-						}
+						okc := len(msgs) == 1 && strings.HasPrefix(msgs[0], "mustValidateAllSchemasMsg(")
+						want := "one mustValidateAllSchemasMsg"
 						if k == n {
-							want = ""
+							okc = got == ""
+							want = "no message"
 						}
-						if got != want {
-							bad = append(bad, fmt.Sprintf("%d of %d valid -> [%s], expected [%s]", k, n, got, want))
+						if !okc {
+							bad = append(bad, fmt.Sprintf("%d of %d valid -> [%s], expected %s", k, n, got, want))
 						}
 					}
 				}
